@@ -1,3 +1,145 @@
 package main
 
-func selfTest(ids []string) int { return 0 }
+// Thorough tier, part 2: the rules of a property are re-run, in fresh
+// processes, on scratch copies of the working tree to which one seeded change
+// (/verif/seeded/<id>/patch.diff, recorded as caught by this property's check)
+// has been applied. The copies live under the system temp directory and are
+// removed before the function returns. The result is evidence about the
+// checker's sensitivity; it never changes the verdict on the tree itself.
+
+import (
+	"encoding/json"
+	"fmt"
+	"os"
+	"os/exec"
+	"path/filepath"
+	"sort"
+	"strings"
+	"sync"
+)
+
+type selfResult struct {
+	ID       string   `json:"id"`
+	Applied  bool     `json:"applied"`
+	Detected bool     `json:"detected"`
+	Reports  []string `json:"reports,omitempty"`
+	Note     string   `json:"note,omitempty"`
+}
+
+func seededFor(home, prop string) []string {
+	var out []string
+	ents, _ := os.ReadDir(filepath.Join(home, "seeded"))
+	for _, e := range ents {
+		if !e.IsDir() {
+			continue
+		}
+		b, err := os.ReadFile(filepath.Join(home, "seeded", e.Name(), "meta.json"))
+		if err != nil {
+			continue
+		}
+		var m struct {
+			CaughtBy []string `json:"caught_by"`
+		}
+		if json.Unmarshal(b, &m) != nil {
+			continue
+		}
+		for _, p := range m.CaughtBy {
+			if p == prop {
+				out = append(out, e.Name())
+			}
+		}
+	}
+	sort.Strings(out)
+	return out
+}
+
+func runSelfVariant(home, repo, prop, id string) selfResult {
+	res := selfResult{ID: id}
+	work, err := os.MkdirTemp("", "mvself-")
+	if err != nil {
+		res.Note = err.Error()
+		return res
+	}
+	defer os.RemoveAll(work)
+	wrepo, whome := filepath.Join(work, "repo"), filepath.Join(work, "home")
+	os.MkdirAll(whome, 0o755)
+	if out, err := exec.Command("rsync", "-a", "--exclude", ".git", repo+"/", wrepo+"/").CombinedOutput(); err != nil {
+		if out2, err2 := exec.Command("cp", "-a", repo, wrepo).CombinedOutput(); err2 != nil {
+			res.Note = "cannot copy the tree: " + string(out) + string(out2)
+			return res
+		}
+		os.RemoveAll(filepath.Join(wrepo, ".git"))
+	}
+	if b, err := os.ReadFile(filepath.Join(home, "known_findings.json")); err == nil {
+		os.WriteFile(filepath.Join(whome, "known_findings.json"), b, 0o644)
+	}
+	p := exec.Command("patch", "-p1", "-s", "-i", filepath.Join(home, "seeded", id, "patch.diff"))
+	p.Dir = wrepo
+	if out, err := p.CombinedOutput(); err != nil {
+		res.Note = "patch does not apply to the current tree: " + firstLines(string(out), 2)
+		return res
+	}
+	res.Applied = true
+	cmd := exec.Command(os.Args[0], prop, "--tier", "quick")
+	cmd.Env = append(os.Environ(), "MVCHECK_REPO="+wrepo, "MVCHECK_HOME="+whome, "MVCHECK_NOSELFTEST=1")
+	out, _ := cmd.CombinedOutput()
+	code := cmd.ProcessState.ExitCode()
+	res.Detected = code == 1 && strings.Contains(string(out), "VIOLATION property="+prop)
+	for _, l := range strings.Split(string(out), "\n") {
+		if strings.HasPrefix(l, "  "+prop+" ") && len(res.Reports) < 3 {
+			if len(l) > 200 {
+				l = l[:200]
+			}
+			res.Reports = append(res.Reports, strings.TrimSpace(l))
+		}
+	}
+	if !res.Detected {
+		res.Note = fmt.Sprintf("exit=%d", code)
+	}
+	return res
+}
+
+// selfTestInto runs the seeded variants for c.Prop and records the outcome in the evidence.
+func selfTestInto(c *Ctx) {
+	if os.Getenv("MVCHECK_NOSELFTEST") != "" {
+		return
+	}
+	ids := seededFor(c.Home, c.Prop)
+	results := make([]selfResult, len(ids))
+	var wg sync.WaitGroup
+	sem := make(chan struct{}, 5)
+	for i, id := range ids {
+		wg.Add(1)
+		sem <- struct{}{}
+		go func(i int, id string) {
+			defer wg.Done()
+			defer func() { <-sem }()
+			results[i] = runSelfVariant(c.Home, c.Repo, c.Prop, id)
+		}(i, id)
+	}
+	wg.Wait()
+	applied, detected := 0, 0
+	for _, r := range results {
+		if r.Applied {
+			applied++
+			if r.Detected {
+				detected++
+			} else {
+				fmt.Printf("SELF-TEST: seeded change %s (recorded as caught by %s) was applied to a scratch copy but not reported\n", r.ID, c.Prop)
+			}
+		}
+	}
+	c.Extra["self_test"] = map[string]any{
+		"what":     "each seeded change recorded as caught by this check is applied to a scratch copy of the working tree (outside /repo and /verif, deleted afterwards) and the check's quick rules are re-run on the copy in a fresh process; a change is 'detected' when that run exits 1 with a VIOLATION line",
+		"variants": len(ids), "applied": applied, "detected": detected, "results": results,
+	}
+	fmt.Printf("%s self-test: %d seeded variant(s), %d applied, %d detected\n", c.Prop, len(ids), applied, detected)
+}
+
+func selfTest(ids []string) int {
+	for _, id := range ids {
+		c := newCtx(id, "thorough")
+		selfTestInto(c)
+	}
+	return 0
+}
